@@ -966,6 +966,32 @@ def prelude(tier):
             raise symex.HarnessError(f'codec bypass and real codec disagree:\n stubbed={snaps[0]}\n real   ={snaps[1]}')
         notes.append(f"codec bypass == real codec for {case['ports']}/{case['parent']}/{case['shares']}: "
                      f"{sum(snaps[0][0]['frames'].values())} frames, session={snaps[0][1]}")
+    # life-cycle environment: same trace of connects / state changes / session events / closes with the frame
+    # bypass (exploration) and with real bytes through a real StreamReader (replay)
+    for fault in ('drop:READ_ERROR', 'eof', 'write', 'stop'):
+        traces = []
+        for stubbed in (True, False):
+            c = _concrete_ctx({})
+            loop = Loop()
+            env = Env(c, loop, True, lambda i: True, stubbed=stubbed)
+            try:
+                with captured_logs(), env.net:
+                    env.spawn(env.client.start(), 'start')
+                    loop.run_ready()
+                    env.spawn(env.client.login(), 'login')
+                    loop.advance(1.0)
+                    st = inject(env, fault)
+                    loop.advance(15.0)
+                    st = st or env.spawn(env.client.stop(), 'stop')
+                    loop.advance(5.0)
+                    traces.append((env.net.events, len(env.initialized), len(env.destroyed), st.done(),
+                                   [[type(m).__qualname__ for m in sd.received] for sd in env.net.server_sides]))
+            finally:
+                _cleanup(loop)
+        if traces[0] != traces[1]:
+            raise symex.HarnessError(f'life-cycle environment: frame bypass and real codec disagree for {fault}:\n'
+                                     f' stubbed={traces[0]}\n real   ={traces[1]}')
+        notes.append(f'life-cycle trace identical with frame bypass and real codec for {fault}: {len(traces[0][0])} events')
     return notes
 
 
